@@ -1346,7 +1346,7 @@ var rec1Table = map[string]string{
 	"internal/phase2.followLongestPath":                       "memo written post-order; terminates because phase 1 leaves the graph acyclic (ORD-5/PAIR-1, re-checked by hasCycles)",
 	"(*internal/phase2.networkSimplexProcessor).adjustLayers": "descends the rooted spanning tree by the lim numbering (strictly decreasing)",
 	"internal/phase4.setColor":                                "walks an in-edge to a strictly lower layer (e.IsFlat() edges are skipped)",
-	"internal/phase4.placeBlock":                              "fix-point on a flag; declined: convergence is not decided statically (C04 level note)",
+	"internal/phase4.placeBlock":                              "fix-point on a flag: each repetition strictly increases a coordinate (PROG-1); an upper bound on the coordinates, hence convergence, is not decided statically",
 	"internal/geom.FitSpline":                                 "recurses on strictly shorter sub-slices path[:k+1], path[k:] (AFF-9)",
 	"(*internal/phase4.brandesKoepfPositioner).placeBlock":    "Brandes-Koepf place_block: guarded by the sentinel xcoord[v] undefined -> defined before recursing",
 	"internal/geom.(Polygon).String":                          "not recursive on data",
@@ -1807,7 +1807,7 @@ func runBal1(m *Model, r *RuleResult) {
 			degGuard := false
 			for _, d := range transitiveControlDeps(st.Block()) {
 				bo, ok := d.If.Cond.(*ssa.BinOp)
-				if !ok || bo.Op != token.EQL || d.Branch != 0 {
+				if !ok || !((bo.Op == token.EQL && d.Branch == 0) || (bo.Op == token.NEQ && d.Branch == 1)) {
 					continue
 				}
 				cx, ok1 := bo.X.(*ssa.Call)
